@@ -81,10 +81,12 @@ def spaces():
     return _CACHE["t"], _CACHE["e"]
 
 
-def free_choices(t):
+def free_choices(t, small=False):
     vs, fs = nf.variables(t)
     names = set(vs) | set(fs)
     out = [None]
+    if small:
+        out.append([])        # explicitly no free variable: nothing may be bound
     for cand in (["a"], ["b"], ["a", "b"], ["a", "b", "F"], ["a", "b", "c"], ["F"]):
         if set(cand) <= names:
             out.append(cand)
@@ -147,8 +149,9 @@ def tuples(tier):
     else:
         plans = [(small_t + T[2], small_e + E[2], False), (small_t + T[2], small_e, True)]
     for ts, es, with_pre in plans:
-        for t in ts:
-            frees = free_choices(t)
+        n_small = len(small_t)
+        for ti, t in enumerate(ts):
+            frees = free_choices(t, small=(ti < n_small))
             for e in es:
                 for fr in frees:
                     if with_pre:
